@@ -39,7 +39,9 @@ def specs(ctx):
                           for _ in range(int(rng.integers(1, 4)))]
         out.append(s)
     for _ in range(ctx.pick(260, 3000)):
-        out.append(corpus.rand_spec(rng, fams, nmax=8, allow_chain=True))
+        # every gradient mode, every kind of box (degenerate sides included)
+        out.append(corpus.rand_spec(rng, fams, nmax=8, allow_chain=True,
+                                    jacs=("callable", "callable", "callable", "none", "2-point", "3-point")))
     for s in out:       # a gradient scaler in part of the runs (the target is tested on the unscaled value)
         if "chain" not in s and rng.random() < 0.35:
             s["scaler"] = float(10 ** rng.uniform(-2, 2))
